@@ -65,8 +65,8 @@ def record(rig, st, label_of_output, known, sensor_defs, which="async", facade=N
         same.append(g is d)
     return {
         "outputs": [cps(v) for v in label_of_output],
-        "all_devices": [cps(d) for d in st.all_devices],
-        "demands": [cps(d) for d in st.user_demands],
+        "all_devices": [cps(d) for d in getattr(st, "_gv_table_devices", st.all_devices)],
+        "demands": [cps(d) for d in getattr(st, "_gv_table_demands", st.user_demands)],
         "known": known,
         "got": {"pumps": uds(f.pumps), "blowers": uds(f.blowers), "lights": uds(f.lights)},
         "sensors_expected": [n for (n, key) in sensor_defs if key in st.accessors],
